@@ -462,6 +462,19 @@ pub fn c14_fixed() -> Vec<C14Pair> {
         p(set("standard-error", &["SYSTEM:ERROR:COUN?", "A"], false, true), set("standard-error", &["SYSTEM:ERROR:COUNX?", "A"], false, true)),
         p(set("third-of-three", &["A", "B", "C", "D:E", "C"], false, false), set("third-of-three", &["A", "B", "C", "D:E", "C?"], false, false)),
         p(set("query-vs-query", &["A:B?", "[X]:A:B?", "A:[C]:B?"], false, false), set("query-vs-query", &["A:B?", "[X]:A:B", "A:[C]:D?"], false, false)),
+        p(set("identical-common-case", &["*rst", "*RST"], false, false), set("identical-common-case", &["*rst", "*RST?"], false, false)),
+        p(set("identical-common-case", &["*Opc?", "*OPC?", "A"], false, false), set("identical-common-case", &["*Opc?", "*OPC", "A"], false, false)),
+        p(set("two-trailing-optional", &["SOURce:VOLTage?", "SOURce:VOLTage:[LEVel]:[IMMediate]?"], false, false), set("two-trailing-optional", &["SOURce:VOLTage?", "SOURce:VOLTage:[LEVel]:IMMediate?"], false, false)),
+        p(set("two-trailing-optional", &["A:[B]:[C]", "A"], false, false), set("two-trailing-optional", &["A:[B]:[C]", "A?"], false, false)),
+        p(set("two-trailing-optional", &["X:[Y]:[Z]:[W]?", "Q", "X?"], false, false), set("two-trailing-optional", &["X:[Y]:[Z]:[W]?", "Q", "X"], false, false)),
+        p(set("two-leading-optional", &["[A]:[B]:C", "C"], false, false), set("two-leading-optional", &["[A]:[B]:C", "C?"], false, false)),
+        p(set("optional-both-sides", &["[A]:B:[C]?", "B?"], false, false), set("optional-both-sides", &["[A]:B:[C]?", "B"], false, false)),
+        p(set("short-and-omitted", &["[SOURce]:VOLTage:[DC]?", "VOLT?"], false, false), set("short-and-omitted", &["[SOURce]:VOLTage:[DC]?", "VOLT"], false, false)),
+        p(set("deep", &["A:B:C:D:E", "A:B:C:D:E"], false, false), set("deep", &["A:B:C:D:E", "A:B:C:D:E?", "A:B:C:D", "A:B:C"], false, false)),
+        p(set("deep", &["A:B:C:[D]:E?", "A:B:C:E?"], false, false), set("deep", &["A:B:C:[D]:E?", "A:B:C:F?"], false, false)),
+        p(set("spelling-noise", &["A::B", "A:B"], false, false), set("spelling-noise", &["A::B", "A:B?"], false, false)),
+        p(set("spelling-noise", &[":A:B", "A:B:"], false, false), set("spelling-noise", &[":A:B", "A:C:"], false, false)),
+        p(set("spelling-noise", &["A : B?", "A:B?"], false, false), set("spelling-noise", &["A : B?", "A:B"], false, false)),
         // twins that are distinct only under the exact reading of a spelling (node boundaries,
         // order, depth, suffixes): a lossy collision key would reject them
         p(set("near-collision/node-boundary", &["A:BC", "A:BC"], false, false), set("near-collision/node-boundary", &["A:BC", "AB:C", "ABC", "A:B:C"], false, false)),
@@ -496,9 +509,15 @@ pub fn c14_random(rng: &mut Rng) -> Option<C14Pair> {
     let sp = rng.pick(&sps).clone();
     let class: &'static str;
     let mut parts: Vec<String> = sp.clone();
-    match rng.below(4) {
+    match rng.below(5) {
         0 => {
             class = "random/same-spelling";
+        }
+        4 => {
+            // the same header plus two optional nodes behind it
+            class = "random/two-extra-optional-trailing";
+            parts.push("[ZQ]".to_string());
+            parts.push("[ZR]".to_string());
         }
         1 => {
             // prepend an optional node that is not in use at this position
@@ -569,7 +588,12 @@ pub fn emit_c14_module(s: &C14Set) -> String {
     }
     o.push_str("impl Dev {\n");
     for (i, d) in s.decls.iter().enumerate() {
-        o.push_str(&format!("    #[scpi(cmd = {:?})]\n    pub fn h{}(&mut self) -> Result<(), ::microscpi::Error> {{ Ok(()) }}\n", d, i));
+        // handlers of different shapes: sync, async, with a parameter
+        match i % 3 {
+            0 => o.push_str(&format!("    #[scpi(cmd = {:?})]\n    pub fn h{}(&mut self) -> Result<(), ::microscpi::Error> {{ Ok(()) }}\n", d, i)),
+            1 => o.push_str(&format!("    #[scpi(cmd = {:?})]\n    pub async fn h{}(&mut self) -> Result<u8, ::microscpi::Error> {{ Ok({}) }}\n", d, i, i % 200)),
+            _ => o.push_str(&format!("    #[scpi(cmd = {:?})]\n    pub fn h{}(&mut self, _p: u8) -> Result<(), ::microscpi::Error> {{ Ok(()) }}\n", d, i)),
+        }
     }
     o.push_str("}\n");
     o
